@@ -26,18 +26,18 @@ for _pid in PENDING:
 # Lean theorem modules added by the main model on top of what each Cxx.py declares
 EXTRA_MODULES = {
     "C05": ["Proofs.C05Render"],
-    "C07": ["Proofs.C07", "Proofs.C07Lines"],
+    "C07": ["Proofs.C07", "Proofs.C07Lines", "Proofs.C07Source"],
     "C08": ["Proofs.C08", "Proofs.C08Source"],
-    "C10": ["Proofs.C10"],
-    "C11": ["Proofs.C11"],
-    "C12": ["Proofs.C12"],
-    "C14": ["Proofs.C14"],
+    "C10": ["Proofs.C10", "Proofs.C10Source"],
+    "C11": ["Proofs.C11", "Proofs.C11Source"],
+    "C12": ["Proofs.C12", "Proofs.C12Source"],
+    "C14": ["Proofs.C14", "Proofs.C14Source"],
     "C18": ["Proofs.C18"],
     "C19": ["Proofs.C19"],
     "C01": ["Proofs.C01", "Proofs.NoPanic", "Proofs.StdNoPanic", "Proofs.ArrNoPanic", "Proofs.JsonFilter"],
     "C02": ["Proofs.C02", "Proofs.JsonFilter"],
     "C03": ["Proofs.C03"],
-    "C20": ["Proofs.C20"],
+    "C20": ["Proofs.C20", "Proofs.C20Source"],
 }
 for _pid, _mods in EXTRA_MODULES.items():
     if _pid in PROPS:
